@@ -216,12 +216,34 @@ def check_controlled(ctx, cirq, n):
 def check_phase_by(ctx, cirq, n):
     rng = ctx.substream('phase_by')
     reqs, meta = [], []
-    for i in range(n):
-        k = rng.choice([1, 1, 2, 2, 3])
-        g = {1: gen.one_qubit_gate, 2: gen.two_qubit_gate, 3: gen.three_qubit_gate}[k](cirq, rng)
-        p = float(rng.choice([0.25, 0.5, -0.125, 0.1, rng.uniform(-1, 1)]))
-        q = rng.randrange(k)
-        phased = cirq.phase_by(g, p, q, default=None)
+    # systematic part: the phaseable families at generic exponents x every eighth of a turn (the fast paths of
+    # phase_by switch on the phase exponent 2p in {0, 0.5, 1, 1.5})
+    grid = []
+    fams = [cirq.X, cirq.Y, cirq.Z, cirq.XPowGate(global_shift=0.5), cirq.YPowGate(global_shift=-0.25), cirq.PhasedXPowGate(phase_exponent=0.3),
+            cirq.CZ, cirq.CNOT, cirq.ZZ, cirq.XX, cirq.YY, cirq.ISWAP, cirq.SWAP, cirq.CCZ, cirq.CCX]
+    for fam in fams:
+        for e in (0.5, 0.3, -1.25, 1):
+            for p8 in range(-8, 9):
+                gg = fam**e
+                for qi in range(cirq.num_qubits(gg)):
+                    grid.append((gg, p8 / 8, qi))
+    if ctx.tier == 'quick':
+        grid = [grid[j] for j in range(ctx.seed % 3, len(grid), 3)]
+    for i in range(n + len(grid)):
+        if i < len(grid):
+            g, p, q = grid[i]
+            k = cirq.num_qubits(g)
+        else:
+            k = rng.choice([1, 1, 2, 2, 3])
+            g = {1: gen.one_qubit_gate, 2: gen.two_qubit_gate, 3: gen.three_qubit_gate}[k](cirq, rng)
+            p = float(rng.choice([0.25, 0.5, -0.5, -0.75, -0.125, 0.1, rng.uniform(-1, 1)]))
+            q = rng.randrange(k)
+        if i % 2 == 1:  # the operation form goes through GateOperation._phase_by_
+            op_ph = cirq.phase_by(g.on(*cirq.LineQubit.range(k)), p, q, default=None)
+            phased = op_ph.gate if op_ph is not None else None
+            ctx.count('check', 'phase_by:operation')
+        else:
+            phased = cirq.phase_by(g, p, q, default=None)
         ctx.count('check', 'phase_by' if phased is not None else 'phase_by:unsupported')
         if phased is None:
             continue
@@ -339,6 +361,38 @@ def check_predicates(ctx, cirq, n):
             if worst > bound + 1e-6:
                 ctx.report_witness('predicate:trace_distance_bound', 'trace_distance_bound is smaller than an achieved trace distance',
                                    {'lines': [{'gate': repr(g)}], 'impl_out': [bound], 'spec_out': [worst], 'theorem_or_correspondence': 'trace_distance_bound_partial'})
+        # trace distance bound of operations, incl. controlled operations (control-off block = identity: eigenvalue 1 joins the spectrum)
+        sub = rng.choice([cirq.rz(rng.choice([6.0, 4.0, -5.5, rng.uniform(-7, 7)])), cirq.rx(rng.uniform(-7, 7)), cirq.ZPowGate(exponent=gen.rand_exponent(rng), global_shift=gen.rand_shift(rng)),
+                          cirq.XPowGate(exponent=gen.rand_exponent(rng), global_shift=gen.rand_shift(rng)), gen.one_qubit_gate(cirq, rng), gen.two_qubit_gate(cirq, rng)])
+        ks = cirq.num_qubits(sub)
+        wires = cirq.LineQubit.range(4)
+        target_op = sub.on(*wires[:ks])
+        forms = [('op', target_op), ('tagged', target_op.with_tags('t'))]
+        if ks <= 2:
+            forms.append(('controlled_by', target_op.controlled_by(wires[3])))
+            forms.append(('controlled_by[0]', target_op.controlled_by(wires[3], control_values=[0])))
+            forms.append(('controlled_gate', cirq.ControlledGate(sub).on(wires[3], *wires[:ks])))
+            if ks == 1:
+                forms.append(('controlled_by x2', target_op.controlled_by(wires[2], wires[3])))
+        for fname, op in forms:
+            try:
+                bound = cirq.trace_distance_bound(op)
+                u = cirq.unitary(op)
+            except TypeError:
+                continue
+            ctx.count('check', f'trace_distance_bound:{fname}')
+            w, v = np.linalg.eig(u)
+            worst = 0.0
+            for a_, b_ in itertools.combinations(range(len(w)), 2):
+                psi = (v[:, a_] + v[:, b_])
+                nrm = np.linalg.norm(psi)
+                if nrm < 1e-6:
+                    continue
+                psi = psi / nrm
+                worst = max(worst, math.sqrt(max(0.0, 1 - abs(np.vdot(psi, u @ psi)) ** 2)))
+            if worst > bound + 1e-6:
+                ctx.report_witness(f'predicate:trace_distance_bound:{fname.split("[")[0].split(" ")[0]}', 'trace_distance_bound of an operation is smaller than an achieved trace distance',
+                                   {'lines': [{'op': repr(op)}], 'impl_out': [bound], 'spec_out': [worst], 'theorem_or_correspondence': 'trace_distance_bound_partial'})
 
 
 def replay(ctx, rep):
